@@ -7,6 +7,8 @@
 //	spz-decode       spz.Read on streams built by the reference encoder (versions 1/2,
 //	                 SH degree 0–3, fractional bits 0–30, arbitrary byte patterns) returns
 //	                 exactly the published dequantisation of record i.
+//	large            the three codecs at point counts on and around 2^12 … 2^16 and up to 120 000.
+//	fault-sequences  histories of writes / reads with failing destinations / sources in between.
 //	splatply-export  ply.SplatPly.Write → ply.ReadMesh (and an independent PLY parse)
 //	                 preserves every splat attribute at float32.
 //
@@ -32,7 +34,11 @@ func Spec() *run.Spec {
 			"splat 0 of every cloud carries one of 16 special rotations) written by splat.Write, read by splat.Read and by the reference decoder, plus the reference encoding of the same cloud read by splat.Read. " +
 			"spz-decode: one case = one SPZ stream from the reference encoder; version, SH degree, gzip level cycle with the case index, fractional bits 0–30, counts 0/1/n, random byte patterns incl. 24-bit sign-extension edges and half-float subnormal/Inf/NaN. " +
 			"splatply-export: one case = one cloud with Position/Scale/FDC/Rotation/Opacity, optional Normal and 0/9/24/45 f_rest_k, values over float32's range. " +
-			"A case is non-trivial when the cloud holds at least one splat; distinct = distinct structural descriptors (count bucket, value classes, header configuration).",
+			"large: one case = two point counts (one of 16383, 16384, 16385, 32769, 40000, 65535, 65536, 65537, random 20 000–120 000 — thorough adds k·2^j±1 — and one of 4095…4097, 8191…8193, 32767, 32768), each run through spz-decode, the .splat round trip and the splat-PLY export with the same per-index oracles. " +
+			"fault-sequences: one case = a history of 3–9 calls in one goroutine (splat.Write / splat.Splat.Write, SplatPly.Write, splat.Read, spz.Read) in which about half the destinations / sources fail for good after k bytes " +
+			"(k on .splat record boundaries and at 8 offsets inside a record; error with partial count, error with count 0, io.ErrShortWrite, panicking destination; non-EOF read error); every fault is followed by a good call of the same codec; " +
+			"a failing call must report the error it was handed (for spz.Read: or return the complete exact cloud, the gzip layer reads ahead), every good call must satisfy the full ordinary oracle; non-trivial = a good call after a delivered fault of the same codec. " +
+			"A case of the first three phases is non-trivial when the cloud holds at least one splat; distinct = distinct structural descriptors (count bucket, value classes, header configuration).",
 		Assumptions: []string{
 			"log-scales stay within ±80 so that exp(scale) is a normal float32 (overflow of float32 exp is out of reach, DESIGN C15)",
 			"rotation components lie in [-1,1] (the 8-bit quantiser covers exactly that range; colours are the only field the property lets clamp)",
@@ -42,20 +48,31 @@ func Spec() *run.Spec {
 		},
 		MinNontrivial: map[string]int{"quick": 300, "thorough": 2000},
 		MinObserved: map[string]int64{
-			"splat/splats_compared":               50000,
-			"splat/special_rotations":             16,
-			"splat/colour_clamped_low":            5000,
-			"splat/colour_clamped_high":           5000,
-			"splat/rotation_component_exactly_+1": 1000,
-			"spz/points_compared":                 20000,
-			"spz/header_configs":                  200,
-			"spz/sh_coefficients_compared":        300000,
-			"splatply/values_compared":            300000,
+			"splat/splats_compared":                          50000,
+			"splat/special_rotations":                        16,
+			"splat/colour_clamped_low":                       5000,
+			"splat/colour_clamped_high":                      5000,
+			"splat/rotation_component_exactly_+1":            1000,
+			"spz/points_compared":                            20000,
+			"spz/header_configs":                             200,
+			"spz/sh_coefficients_compared":                   300000,
+			"splatply/values_compared":                       300000,
+			"large/point_counts":                             9,
+			"large/spz_points_compared":                      200000,
+			"large/splat_splats_round_tripped":               200000,
+			"large/splatply_splats_exported":                 200000,
+			"faults/histories":                               1000,
+			"faults/good_calls_after_a_fault/splat.Write":    500,
+			"faults/good_calls_after_a_fault/SplatPly.Write": 300,
+			"faults/good_calls_after_a_fault/splat.Read":     150,
+			"faults/good_calls_after_a_fault/spz.Read":       150,
 		},
 		Phases: []run.Phase{
 			{Name: "splat-roundtrip", Cases: func(t string) int { return n3(t, 5000, 300000) }, Run: splatRoundTrip, Batch: 250, CPUBudgetS: 20},
 			{Name: "spz-decode", Cases: func(t string) int { return n3(t, 5000, 300000) }, Run: spzDecode, Batch: 250, CPUBudgetS: 20},
 			{Name: "splatply-export", Cases: func(t string) int { return n3(t, 1500, 60000) }, Run: splatPly, Batch: 100, CPUBudgetS: 20},
+			{Name: "large", Cases: func(t string) int { return n3(t, 9, 100) }, Run: largeClouds, Batch: 1, CPUBudgetS: 120},
+			{Name: "fault-sequences", Cases: func(t string) int { return n3(t, 2000, 100000) }, Run: faultSequences, Batch: 250, CPUBudgetS: 20},
 		},
 	}
 }
